@@ -12,7 +12,7 @@ func init() {
 		Run: func(c *Ctx) {
 			c.Do("C02.a", "L5 comparator decision tables", 9, func() { clItemComparatorTables(c); clComparatorWiring(c); clPlainComparatorTables(c) })
 			c.Do("C02.b", "L4 comparator role table", 20, func() { clComparatorRoles(c, nil) })
-			c.Do("C02.c", "L1+L2 result/effect pairing", 8, func() { clPut2Pairing(c); clGetNodeProbe(c); clAllocItemInitialises(c) })
+			c.Do("C02.c", "L1+L2 result/effect pairing", 8, func() { clPut2Pairing(c); clGetNodeProbe(c); clAllocItemInitialises(c); clEpochTypesAgree(c) })
 			c.Do("C02.d", "L1 delete selector and winner-only effects", 8, func() { clDeleteNodeWinner(c) })
 		},
 	})
